@@ -5,7 +5,7 @@ package main
 // C03 — Sequential programs give the same result under any schedule.
 //
 // A case is one generated murex program. It is executed in-process many times
-// (10 quick / 100 thorough), every run under a different, seeded scheduling
+// (10 quick / 60 thorough), every run under a different, seeded scheduling
 // perturbation: the lang.VerifSetYield hook (process spawn / start / teardown),
 // a changing GOMAXPROCS and noise goroutines. The observation is the list of
 // DISTINCT (stdout, stderr, exit number, hang) results over the runs.
@@ -307,9 +307,9 @@ func c03GenWide(r *rand.Rand, id int) string {
 }
 
 func (c03) Gen(seed int64, tier string, emit func(any)) {
-	runs, nModel, nWide := 10, 260, 60
+	runs, nModel, nWide := 10, 200, 40
 	if tier == "thorough" {
-		runs, nModel, nWide = 100, 900, 220
+		runs, nModel, nWide = 60, 600, 150
 	}
 	mk := func(class string, p []c03Pipe, s int64) c03Case {
 		return c03Case{Class: class, Prog: p, Src: c03ProgSrc(p), Runs: runs, Seed: s}
